@@ -58,6 +58,7 @@ type cbEnv struct {
 	arr      *atree.Array
 	arrLen   int
 	distinct map[string]bool
+	poisoned bool // a storage failure after the lookup phase left a half-applied change: stop using these containers
 }
 
 func (e *cbEnv) viol(what string) {
@@ -123,11 +124,22 @@ func callbackFailStream(cfg *Config) *hx.Stats {
 			break
 		}
 		st.Programs++
-		for trial := 0; trial < 260 && len(st.Violations) <= 20; trial++ {
+		for trial := 0; trial < 260 && len(st.Violations) <= 20 && st.HarnessErr == ""; trial++ {
 			e.trial(trial)
+			if e.poisoned {
+				// a half-applied change was left behind (observation): continue on fresh containers
+				e = &cbEnv{st: st, cfg: cfg, rng: rng, p: p, T: e.T, distinct: distinct}
+				if !e.setup() {
+					break
+				}
+			}
+		}
+		if st.HarnessErr != "" {
+			break
 		}
 		e.undefinedIDs()
 		e.limitProbe()
+		e.partialChangeProbe()
 	}
 	if st.HarnessErr == "" && len(st.Violations) == 0 {
 		var missing []string
@@ -161,6 +173,7 @@ var callbackRequired = []string{
 	"storage.SlabIterator/ledger-read", "storage.BatchPreload/ledger-read",
 	"undefined-id:NewArrayWithRootID", "undefined-id:NewMapWithRootID", "undefined-id:Store", "undefined-id:Remove", "undefined-id:Retrieve",
 	"limit-probe:control-refused",
+	"partial-change-probe:map.Remove", "partial-change-probe:array.Remove",
 }
 
 func (e *cbEnv) setup() bool {
@@ -310,10 +323,16 @@ func (e *cbEnv) trial(trial int) {
 		// the SlabStorage handed to the container fails its n-th read
 		before := e.snapshot()
 		e.rec.Reset()
-		e.rec.Retrieves, e.rec.FailRetrieveAt = 0, 1+rng.Intn(3)
+		e.rec.Retrieves, e.rec.FailRetrieveAt, e.rec.EffsAtFail = 0, 1+rng.Intn(3), 0
 		err := mapRequest(c, kind, hx.CompareKey, c.hip, k, uint64(trial))
 		fired = e.rec.Retrieves >= e.rec.FailRetrieveAt
 		e.rec.FailRetrieveAt = 0
+		if fired && e.rec.EffsAtFail > 0 {
+			// the read that failed came AFTER the lookup: the request had already changed and stored a
+			// slab and was fetching a sibling to merge / rebalance with (see partialChangeProbe)
+			e.afterLookupFailure("map."+kind, err)
+			return
+		}
 		e.check("map."+kind+"/storage-read", fired, err, before)
 	case 7:
 		if trial%16 == 7 {
@@ -642,5 +661,101 @@ func (e *cbEnv) limitProbeOne(limit uint32, failAt int, external bool) {
 	}
 	if err := atree.VerifyMap(m, hx.MkAddr(1), hx.TI(3), func(a, b atree.TypeInfo) bool { return a == b }, hx.HashInput, true); err != nil {
 		e.viol(fmt.Sprintf("limit %d: VerifyMap after the probe: %v", limit, err))
+	}
+}
+
+// afterLookupFailure: a storage read failed after the request's lookup phase.  The property only asks
+// for the External category here ("an error raised by a caller-supplied component during a lookup");
+// on the unchanged library the request is left half-applied (counted as an observation, not raised).
+func (e *cbEnv) afterLookupFailure(what string, err error) {
+	e.st.Ops++
+	e.rec.Reset()
+	if err == nil {
+		e.viol(what + ": the storage read failed but the request succeeded")
+		return
+	}
+	if hx.ErrCategory(err) != "External" {
+		e.viol(fmt.Sprintf("%s: storage read failure after the lookup reported as %s", what, hx.ErrKind(err)))
+	}
+	e.st.Hit("observation:storage-read-failure-after-lookup-leaves-partial-change")
+	e.poisoned = true
+}
+
+// partialChangeProbe (directed; observation, not raised): a Remove whose data slab underflows fetches
+// a sibling to merge or rebalance with AFTER the element has been taken out and the data slab stored.
+// When that read fails the error is returned as External, but the removal is half applied: the slab
+// without the element stays in the write set, the parent keeps the stale header in storage and the
+// element count is not decremented.  Outside C18's text (the failure is not "during a lookup", the
+// request is not rejected because of its arguments); the probe asserts the category and records what
+// is left behind.
+func (e *cbEnv) partialChangeProbe() {
+	atree.VerifSetThreshold(256)
+	defer atree.VerifSetThreshold(1024)
+	for _, container := range []string{"map", "array"} {
+		ledger := hx.NewLedger()
+		ps := hx.NewStorage(ledger)
+		rec := hx.NewRecStorage(ps)
+		b := &hx.TableDigesterBuilder{L: 2, Fn: func(k hx.TV, l uint) uint64 { return k.Pay*1000 + uint64(l) }}
+		m, err := atree.NewMap(rec, hx.MkAddr(1), b, hx.TI(3))
+		if err != nil {
+			e.st.HarnessErr = err.Error()
+			return
+		}
+		a, _ := atree.NewArray(rec, hx.MkAddr(1), hx.TI(4))
+		const n = 60
+		for i := 1; i <= n; i++ {
+			if _, err := m.Set(hx.CompareKey, hx.HashInput, hx.TV{Size: 9, Pay: uint64(i)}, hx.TV{Size: 20, Pay: uint64(i)}); err != nil {
+				e.st.HarnessErr = "partial-change probe setup: " + err.Error()
+				return
+			}
+			_ = a.Append(hx.TV{Size: 30, Pay: uint64(i)})
+		}
+		seen := false
+		for i := 1; i <= n && !seen; i++ {
+			rec.Reset()
+			rec.Retrieves, rec.FailRetrieveAt, rec.EffsAtFail = 0, 2, 0 // read 1: the data slab on the path; read 2: a sibling
+			if container == "map" {
+				_, _, err = m.Remove(hx.CompareKey, hx.HashInput, hx.TV{Size: 9, Pay: uint64(i)})
+			} else {
+				_, err = a.Remove(0)
+			}
+			fired := rec.Retrieves >= 2
+			rec.FailRetrieveAt = 0
+			e.st.Ops++
+			switch {
+			case !fired && err != nil:
+				e.viol(fmt.Sprintf("partial-change probe: %s.Remove failed without an injected failure: %v", container, err))
+				return
+			case !fired:
+				continue
+			case err == nil:
+				e.viol(fmt.Sprintf("partial-change probe: a storage read failed during %s.Remove but the request succeeded", container))
+				return
+			}
+			if hx.ErrCategory(err) != "External" {
+				e.viol(fmt.Sprintf("partial-change probe: storage read failure during %s.Remove reported as %s", container, hx.ErrKind(err)))
+			}
+			if rec.EffsAtFail == 0 {
+				continue // failed during the descent (deeper tree): nothing may have changed; covered by the trials
+			}
+			seen = true
+			e.st.Hit("partial-change-probe:" + container + ".Remove")
+			e.st.Hit("observation:storage-read-failure-after-lookup-leaves-partial-change")
+			left := ""
+			if container == "map" {
+				cnt := 0
+				_ = m.IterateReadOnly(func(k, v atree.Value) (bool, error) { cnt++; return true, nil })
+				verr := atree.VerifyMap(m, hx.MkAddr(1), hx.TI(3), func(a, b atree.TypeInfo) bool { return a == b }, hx.HashInput, true)
+				left = fmt.Sprintf("Count()=%d, elements reachable=%d, storage calls made: %s, VerifyMap: %v", m.Count(), cnt, hx.NetEffect(rec.Effs), verr != nil)
+			} else {
+				cnt := 0
+				_ = a.IterateReadOnly(func(v atree.Value) (bool, error) { cnt++; return true, nil })
+				verr := atree.VerifyArray(a, hx.MkAddr(1), hx.TI(4), func(a, b atree.TypeInfo) bool { return a == b }, nil, true)
+				left = fmt.Sprintf("Count()=%d, elements reachable=%d, storage calls made: %s, VerifyArray: %v", a.Count(), cnt, hx.NetEffect(rec.Effs), verr != nil)
+			}
+			if e.p == 0 {
+				e.st.Samples = append(e.st.Samples, fmt.Sprintf("observation (not raised): %s.Remove whose sibling read fails after the element was taken out returns %s and leaves: %s", container, hx.ErrKind(err), left))
+			}
+		}
 	}
 }
